@@ -67,9 +67,22 @@ structure Hooks where
   lroot : WSt → WSt × Val               -- `_root_decomposition()`
   lrootInv : WSt → WSt × Val            -- `_root_inv_decomposition()` including its side write
   denseKey : Bool                       -- `to_dense` memoised on the wrapper
-  rootOv : Option (Call → WSt → WSt × Val)   -- a memoised `root_decomposition` override (ConstantMul)
+  /-- what COMPUTING `to_dense` does to the sub-operators (`SumLinearOperator.to_dense` = `sum(op.to_dense() for op in linear_ops)`:
+  every part whose `to_dense` is memoised gets the key). -/
+  denseBody : WSt → WSt := id
+  /-- a memoised `root_decomposition` override: its body either computes the answer itself (`.inl`: ConstantMul; the structured
+  branch of Kronecker) or calls `super().root_decomposition(**c')` — the memoised BASE method, a second key — (`.inr c'`). -/
+  rootOv : Option (Call → WSt → (WSt × Val) ⊕ Call)
+  /-- the same for a memoised `root_inv_decomposition` override (Kronecker). -/
+  rootInvOv : Option (Call → WSt → (WSt × Val) ⊕ Call) := none
+  /-- a NON-memoised `diagonalization` override that re-binds the arguments and calls `super().diagonalization(**c')`
+  (Kronecker: `method=None -> "symeig"`, always by keyword). -/
+  diagzRebind : Call → Call := id
   iqlOv : Option (WSt → WSt × Val)      -- `inv_quad_logdet` override
   sampleOv : Option (WSt → WSt × Val)   -- `zero_mean_mvn_samples` override
+  /-- `inv_quad_logdet` override of Kronecker: inverse-quadratic term from `super().inv_quad_logdet(logdet=False)`, log-determinant
+  from `_logdet()` = eigenvalues of `self.diagonalization()`; `logdet()` alone only runs `_logdet()`. -/
+  logdetDiagz : Bool := false
 
 section generic
 variable (H : Hooks) (σ : Settings) (n m : Nat)
@@ -90,7 +103,7 @@ def wCholesky (u : Bool) (w : WSt) : WSt × Val :=
   | v => (r.1, v)
 
 def wToDense (w : WSt) : WSt × Val :=
-  if H.denseKey then wCached denseKey (fun w => (w, Val.dense m)) w else (w, Val.dense m)
+  if H.denseKey then wCached denseKey (fun w => (H.denseBody w, Val.dense m)) w else (H.denseBody w, Val.dense m)
 
 def wBump (w : WSt) : WSt := { w with self := { w.self with run := w.self.run + 1 } }
 
@@ -98,7 +111,7 @@ def wDiagzBody (meth : String) (w : WSt) : WSt × Val :=
   if meth == "lanczos" then (wBump w, Val.diagz (w.self.run + 1) m) else (H.symeig w, Val.diagz 0 m)
 
 def wDiagonalization (c : Call) (w : WSt) : WSt × Val :=
-  wCached (diagzKey c) (wDiagzBody H m (match c.method with
+  wCached (diagzKey (H.diagzRebind c)) (wDiagzBody H m (match (H.diagzRebind c).method with
     | some x => x
     | none => if n ≤ σ.mcs then "symeig" else "lanczos")) w
 
@@ -125,7 +138,10 @@ def wRootCompute (c : Call) (w : WSt) : WSt × Val :=
 
 def wRootDecomp (c : Call) (w : WSt) : WSt × Val :=
   wCached (rootKey c) (match H.rootOv with
-    | some f => f c
+    | some f => fun w =>
+      match f c w with
+      | .inl r => r
+      | .inr c' => wCached (rootKey c') (wRootCompute H σ n m c') w     -- `super().root_decomposition(**c')`
     | none => wRootCompute H σ n m c) w
 
 def wRootInvBody (meth : String) (w : WSt) : WSt × Val :=
@@ -146,10 +162,18 @@ def wRootInvBody (meth : String) (w : WSt) : WSt × Val :=
     | _ => (r.1, Val.rootInv .transplant 0)
   else H.lrootInv w
 
-def wRootInvDecomp (c : Call) (w : WSt) : WSt × Val :=
-  wCached (rootInvKey c) (fun w => wRootInvBody H σ n m (match c.method 2 with
+def wRootInvCompute (c : Call) (w : WSt) : WSt × Val :=
+  wRootInvBody H σ n m (match c.method 2 with
     | some x => x
-    | none => chooseRootMethod σ n w.self.cache) w) w
+    | none => chooseRootMethod σ n w.self.cache) w
+
+def wRootInvDecomp (c : Call) (w : WSt) : WSt × Val :=
+  wCached (rootInvKey c) (match H.rootInvOv with
+    | some f => fun w =>
+      match f c w with
+      | .inl r => r
+      | .inr c' => wCached (rootInvKey c') (wRootInvCompute H σ n m c') w   -- `super().root_inv_decomposition(**c')`
+    | none => wRootInvCompute H σ n m c) w
 
 def wEigh (w : WSt) : WSt × Val :=
   match w.self.cache.get symeigKey with
@@ -157,7 +181,7 @@ def wEigh (w : WSt) : WSt × Val :=
   | none => (H.symeig w, Val.evals true m)
 
 /-- base-class `inv_quad_logdet` / `logdet` on the wrapper (with the triangular-root shortcut), unless overridden. -/
-def wIql (w : WSt) : WSt × Val :=
+def wIqlBase (w : WSt) : WSt × Val :=
   match H.iqlOv with
   | some f => f w
   | none =>
@@ -169,6 +193,27 @@ def wIql (w : WSt) : WSt × Val :=
         | _ => let r2 := wCholesky H false r.1; (r2.1, Val.num (valMat r2.2 == m) m)
       else let r2 := wCholesky H false w; (r2.1, Val.num (valMat r2.2 == m) m)
     else (w, Val.num true m)
+
+def valOk : Val → Bool
+  | .num ok _ => ok
+  | _ => false
+
+/-- `_logdet()` of Kronecker: `evals, _ = self.diagonalization()`. -/
+def wLogdetDiagz (w : WSt) : WSt × Val :=
+  let r := wDiagonalization H σ n m .noargs w
+  (r.1, Val.num (valMat r.2 == m) m)
+
+/-- `inv_quad_logdet(rhs, logdet=True)`. -/
+def wIql (w : WSt) : WSt × Val :=
+  if H.logdetDiagz then
+    let r := wIqlBase H σ n m w
+    let r2 := wLogdetDiagz H σ n m r.1
+    (r2.1, Val.num (valOk r.2 && valOk r2.2) m)
+  else wIqlBase H σ n m w
+
+/-- `logdet()` = `inv_quad_logdet(inv_quad_rhs=None, logdet=True)`. -/
+def wLogdet (w : WSt) : WSt × Val :=
+  if H.logdetDiagz then wLogdetDiagz H σ n m w else wIql H σ n m w
 
 def wSample (w : WSt) : WSt × Val :=
   match H.sampleOv with
@@ -183,6 +228,7 @@ def wSample (w : WSt) : WSt × Val :=
 inductive WQuery
   | self (q : Query)
   | sub (j : Nat) (q : Query)
+  | logdet                      -- `logdet()` on the wrapper (differs from `inv_quad_logdet(rhs, logdet=True)` for Kronecker)
   deriving DecidableEq, Repr
 
 def wRunSelf (q : Query) (w : WSt) : WSt × Val :=
@@ -207,6 +253,7 @@ def wRun (q : WQuery) (w : WSt) : WSt × Val :=
      match w.subs.find? (fun o => o.m == j) with
      | some o => (runQuery o.P σ o.n o.m q o.st).2
      | none => Val.num true j)
+  | .logdet => wLogdet H σ n m w
 
 end generic
 
@@ -244,23 +291,101 @@ def Hooks.constMul (σ : Settings) (m : Nat) : Hooks where
     let p : Prov := match w.subs with
       | [o] => (match (runQuery o.P σ o.n o.m (.root kw) o.st).2 with | .root p _ _ _ => p | _ => .transplant)
       | _ => .transplant
-    (r.1, Val.root p false false (if r.2 then m else 0))
+    .inl (r.1, Val.root p false false (if r.2 then m else 0))
+  iqlOv := none
+  sampleOv := none
+
+/-- `initial_vectors=None, test_vectors=None, method=<bound method>`: how `KroneckerProductLinearOperator.root_inv_decomposition`
+calls `super().root_inv_decomposition` (after fix D33 all three by keyword). -/
+def kwRootInv (c : Call) : Call :=
+  ⟨[], [("initial_vectors", .none), ("test_vectors", .none), ("method", match c.method 2 with | some x => .str x | none => .none)]⟩
+
+/-- `method=<method as bound by root_inv_decomposition (third positional, else keyword)>` by keyword. -/
+def kwMethod2 (c : Call) : Call := ⟨[], [("method", match c.method 2 with | some x => .str x | none => .none)]⟩
+
+/-- `KroneckerProductLinearOperator.diagonalization(method)`: `method=None -> "symeig"`, then `super().diagonalization(method=method)`. -/
+def kronDiagzCall (c : Call) : Call := ⟨[], [("method", .str (match c.method with | some x => x | none => "symeig"))]⟩
+
+/-- **KroneckerProductLinearOperator** over ANY number of factors (`w.subs`), matrix size `n`:
+* `_cholesky(upper)` / `_svd` / `_symeig`: factor-wise (`lt.cholesky(upper=upper)`, `lt.svd()`, `lt._symeig`) — as `Hooks.delegating`;
+* `_root_decomposition` / `_root_inv_decomposition` (Lanczos): base class ON THE WRAPPER (side write into the wrapper's cache);
+* `root_decomposition(method)` `@cached(name="root_decomposition")`: at or below `max_cholesky_size` calls the memoised base method with
+  `method=method` by keyword (a SECOND key on the same object), above it `lt.root_decomposition(method=method).root` for every factor;
+* `root_inv_decomposition(...)`: the same with `initial_vectors=None, test_vectors=None, method=method` resp. `lt.root_inv_decomposition(method=method)`;
+* `diagonalization(method)`: not memoised; `None -> "symeig"`, then the base method by keyword;
+* `inv_quad_logdet`: inverse-quadratic term from the base class, log-determinant from `diagonalization()`. -/
+def Hooks.kron (σ : Settings) (n m : Nat) : Hooks where
+  chol u w := let r := subsQuery σ (.cholesky u) w; (r.1, Val.chol u (if r.2 then m else 0))
+  symeig w := subsSymeig w
+  svd w := let r := subsQuery σ .svd w; (r.1, Val.svd (if r.2 then m else 0))
+  lroot w := (wBump w, Val.root (.lanczos w.self.run) false false m)
+  lrootInv w := (wBump (w.putSelf (rootKey .noargs) (Val.root (.lanczos w.self.run) false false m)), Val.rootInv (.lanczos w.self.run) m)
+  denseKey := true
+  rootOv := some fun c w =>
+    if n ≤ σ.mcs then .inr (kwMethod c)
+    else let r := subsQuery σ (.root (kwMethod c)) w; .inl (r.1, Val.root .transplant false false (if r.2 then m else 0))
+  rootInvOv := some fun c w =>
+    if n ≤ σ.mcs then .inr (kwRootInv c)
+    else
+      let r := subsQuery σ (.rootInv (kwMethod2 c)) w; .inl (r.1, Val.rootInv .transplant (if r.2 then m else 0))
+  diagzRebind := kronDiagzCall
+  iqlOv := none
+  sampleOv := none
+  logdetDiagz := true
+
+/-- `self.to_dense()` of a Sum-type wrapper, called from inside a hook (memoised on the wrapper; a miss densifies every part). -/
+def sumDense (σ : Settings) (m : Nat) (w : WSt) : WSt :=
+  match w.self.cache.get LinOp.C12.denseKey with
+  | some _ => w
+  | none => ((subsQuery σ .toDense w).1).putSelf LinOp.C12.denseKey (Val.dense m)
+
+/-- Issue `q` to the FIRST sub-operator only (`AddedDiagLinearOperator._linear_op`). -/
+def firstQuery (σ : Settings) (q : Query) (w : WSt) : WSt × Bool :=
+  match w.subs with
+  | [] => (w, true)
+  | o :: t => ({ w with subs := { o with st := (runQuery o.P σ o.n o.m q o.st).1 } :: t },
+               decide (answerOk o.m q (runQuery o.P σ o.n o.m q o.st).2))
+
+def firstSymeig (w : WSt) : WSt :=
+  match w.subs with
+  | [] => w
+  | o :: t => { w with subs := { o with st := symeigRun o.P o.m o.st } :: t }
+
+/-- **AddedDiagLinearOperator** (`_linear_op + _diag_tensor`, a SumLinearOperator subclass), `constDiag` = the diagonal part is a
+ConstantDiagLinearOperator:
+* `to_dense` memoised on the wrapper; computing it densifies BOTH parts (a Diag part memoises its own `to_dense`);
+* `_cholesky`, Lanczos hooks: base class on the wrapper (side write into the wrapper's cache);
+* general diagonal: `_symeig` / `_svd` are the base class through `self.to_dense()`;
+* constant diagonal: `_symeig` -> `self._linear_op._symeig(...)` (eigenvalues shifted), `_svd` -> `self._linear_op.svd()` — the FIRST part only.
+The ad-hoc preconditioner attributes (`_q_cache`, `_r_cache`, `_precond_*`) are outside `_memoize_cache` and are not modelled. -/
+def Hooks.addedDiag (σ : Settings) (m : Nat) (constDiag : Bool) : Hooks where
+  chol u w := (w, Val.chol u m)
+  symeig w := if constDiag then firstSymeig w else sumDense σ m w
+  svd w := if constDiag then let r := firstQuery σ .svd w; (r.1, Val.svd (if r.2 then m else 0)) else (sumDense σ m w, Val.svd m)
+  lroot w := (wBump w, Val.root (.lanczos w.self.run) false false m)
+  lrootInv w := (wBump (w.putSelf (rootKey .noargs) (Val.root (.lanczos w.self.run) false false m)), Val.rootInv (.lanczos w.self.run) m)
+  denseKey := true
+  denseBody w := (subsQuery σ .toDense w).1
+  rootOv := none
   iqlOv := none
   sampleOv := none
 
 inductive WKind
-  | batchRepeat | block | constMul | blockInterleaved
+  | batchRepeat | block | constMul | blockInterleaved | kron | addedDiag | addedDiagConst
   deriving DecidableEq, Repr
 
-def WKind.hooks (k : WKind) (σ : Settings) (m : Nat) : Hooks :=
+def WKind.hooks (k : WKind) (σ : Settings) (n m : Nat) : Hooks :=
   match k with
   | .batchRepeat => Hooks.delegating σ m false
   | .block => Hooks.delegating σ m true
   | .constMul => Hooks.constMul σ m
   | .blockInterleaved => Hooks.delegating σ m true true
+  | .kron => Hooks.kron σ n m
+  | .addedDiag => Hooks.addedDiag σ m false
+  | .addedDiagConst => Hooks.addedDiag σ m true
 
 /-- One step of the wrapper state machine of class `k`. -/
-def wStep (k : WKind) (σ : Settings) (n m : Nat) (q : WQuery) (w : WSt) : WSt × Val := wRun (k.hooks σ m) σ n m q w
+def wStep (k : WKind) (σ : Settings) (n m : Nat) (q : WQuery) (w : WSt) : WSt × Val := wRun (k.hooks σ n m) σ n m q w
 
 /-- Wrapper cache invariant: every entry of the wrapper's cache is valid for the wrapper's matrix and every entry of every
 sub-operator's cache is valid for that sub-operator's matrix. -/
@@ -272,5 +397,6 @@ def wAnswerOk (m : Nat) (w : WSt) (q : WQuery) (v : Val) : Prop :=
   match q with
   | .self q => answerOk m q v
   | .sub j q => (∃ o ∈ w.subs, o.m = j) → answerOk j q v
+  | .logdet => answerOk m .iql v
 
 end LinOp.C12
